@@ -127,7 +127,10 @@ def lean_sources():
         for f in files:
             if f.endswith(".lean"):
                 out.append(os.path.join(root, f))
-    out.append(os.path.join(LEAN, "Driver.lean"))
+    mdir = os.path.join(LEAN, "Main")
+    for f in os.listdir(mdir):
+        if f.endswith(".lean"):
+            out.append(os.path.join(mdir, f))
     return sorted(out)
 
 
@@ -170,7 +173,7 @@ def build_and_audit(pid, leanchecker=False):
 
     Returns dict(obligations, discharged, theorems, axioms, checker_cmd)."""
     t0 = time.time()
-    rc, out, err = sh(["lake", "build", f"DFV.Props.{pid}", "driver"], cwd=LEAN, timeout=3000)
+    rc, out, err = sh(["lake", "build", f"DFV.Props.{pid}", f"drv_{pid.lower()}"], cwd=LEAN, timeout=3000)
     if rc != 0:
         raise MachineryError(f"lake build failed for DFV.Props.{pid}:\n{out[-3000:]}\n{err[-2000:]}")
     hits = grep_forbidden()
@@ -220,13 +223,13 @@ def build_and_audit(pid, leanchecker=False):
     return res
 
 
-def driver(requests):
-    """Run the compiled model driver on a list of request dicts; returns list of responses."""
+def driver(requests, pid):
+    """Run the compiled model driver of property `pid` on a list of request dicts."""
     if not requests:
         return []
-    exe = os.path.join(LEAN, ".lake", "build", "bin", "driver")
+    exe = os.path.join(LEAN, ".lake", "build", "bin", f"drv_{pid.lower()}")
     if not os.path.exists(exe):
-        rc, out, err = sh(["lake", "build", "driver"], cwd=LEAN, timeout=3000)
+        rc, out, err = sh(["lake", "build", f"drv_{pid.lower()}"], cwd=LEAN, timeout=3000)
         if rc != 0:
             raise MachineryError("cannot build driver: " + out[-2000:] + err[-2000:])
     data = "\n".join(json.dumps(r, separators=(",", ":")) for r in requests) + "\n"
@@ -327,7 +330,7 @@ def run_property(mod, tier, seed, replay=None, budget_s=None):
         records.append((case, obs, reqs))
 
     flat = [r for _, _, reqs in records for r in reqs]
-    resps = driver(flat)
+    resps = driver(flat, pid)
     pos = 0
     failures = []  # dict(case, kind, text)
     distinct = set()
